@@ -122,6 +122,21 @@ CHECKS = {
    design_ref='DESIGN.md §5 C05',
    note=COMMON_NOTE + "For outputs built from a bare public key or hash the script type is the library's default; the check demands only that the script commits to that key's hash. "
         "Witness programs without a standard type name (v>=2, v1 with non-32-byte program) are compared by address only."),
+ 'C19': dict(
+   technique='Lean 4 theorems (per-opcode agreement of the library model with consensus on every stack; equality of evaluation for all straight-line programs over the agreeing set; witnesses for each listed deviation) + exhaustive/random correspondence of both models with Script.evaluate',
+   text=("Two Lean interpreters: Spec = transcription of consensus EvalScript for the implemented opcodes (exec stack, CastToBool, 4/5-byte "
+         "operands, CHECKMULTISIG matching, BIP65/66/112) and Impl = transcription of Script.evaluate / Stack.op_* as they are (Python list "
+         "index semantics, op_if's splice scanner, exception paths). Proved: for each of 63 opcodes of the agreeing set the library method equals "
+         "consensus on EVERY stack and never lets an exception escape; hence for every straight-line program over that set, of any length, evaluation "
+         "gives the same verdict and the same remaining stack, and what consensus rejects is rejected; witness theorems show each listed deviation "
+         "(SUB, TUCK, 2SWAP, PICK, WITHIN, LESSTHAN family, second ELSE); the opcode numbers equal the library's generated table. Correspondence: "
+         "every opcode number 0..255 on every stack of <= 2 (thorough <= 3) items over a 12-value edge alphabet, random programs with nested "
+         "conditionals (20% ill nested), straight-line programs over the agreeing set, standard spends with real signatures: the library must equal "
+         "Spec, or equal Impl exactly AND involve a listed F13.* opcode. Found and fixed through this check: consensus truthiness, CLTV threshold, CSV "
+         "always passing (three fix: commits); 13 F13.* deviations are listed (most pinned by the repository's own unit tests)."),
+   design_ref='DESIGN.md §5 C19',
+   note=COMMON_NOTE + "Consensus = my transcription of Bitcoin Core's interpreter (no reference node offline); script size / opcode count / stack size limits are not modelled. "
+        "Conditionals, CHECKSIG/CHECKMULTISIG, CLTV/CSV are covered by the correspondence with the Impl model only (no Impl=Spec theorem; listed deviations exist there)."),
 }
 
 NOT_YET = {}
